@@ -9,6 +9,10 @@ more than one substitution pass - nested keys, configured values / defaults that
 Stream `vstruct`: struct-valued validation targets - the field's Go type is built by the driver (reflect.StructOf) from a generated
 shape with nested non-pointer structs, pointers to structs, slices / maps of structs tagged required / dive,required / ..., the
 section of each present, missing, all-zero or with a zero element (gen_vstruct_case).
+Stream `multi`: ONE component with 2-4 tagged fields (gen_multi_case) - start-up fails in validation iff at least one bound value violates.
+Stream `pholder`: the validated field(s) on a generated component type that is itself a container.ComponentPostProcessor (unordered /
+Ordered / Priority-ordered, lazy or not, named before / after the built-in processors): gen_pholder_case, holder_source, holder_info;
+eager holders the ordering puts in front of the validate processor are known finding KF-C05a, every other violation is reported.
 Instantiated obligation: class / Order() of the real built-in processors, read on every run -> Facts_C18.v ->
 `staged facts = true` and `staged_classes facts = true` re-proved by vm_compute.
 """
@@ -23,15 +27,20 @@ MANIFEST = {
             "class facts imply ${} before #{} before binding before validation for any further processors; a staged sequence makes "
             "the pipeline the composition ${};#{};bind;validate; the evaluator is handed exactly the fully substituted expression "
             "text and the field receives decode(parse_any(format_any(result))); start-up fails in validation iff the verdict on the "
-            "bound value is negative. `staged` is re-proved on the facts read from the real processors each run; the model is "
-            "compared with real App.Run starts (expr-lang and validator called directly as oracles)",
+            "bound value is negative; for a component with several properties the validate processor fails start-up iff at least one "
+            "of them violates (c18_component_validate_any); a component that is an eager post processor itself sees exactly the "
+            "processors sorted before it (active_order; c18_holder_sees_earlier_processors: the whole built-in pipeline for an "
+            "unordered one). `staged` is re-proved on the facts read from the real processors each run; the model is "
+            "compared with real App.Run starts (expr-lang and validator called directly as oracles) of components with one or "
+            "several tagged fields, plain or post processors of every ordering class",
     "design_ref": "DESIGN.md 5 C18",
     "note": "trusted: Coq kernel + vm_compute; hand-written pipeline model; expr-lang and validator as oracles (Section variables; the "
             "driver's reference validator is its own instance, built with WithRequiredStructEnabled: `required` on a struct value means "
             "not the zero struct); "
             "mapstructure decoding modelled only for scalar field types in the harness comparison (not in theorems); Go driver, generators; "
             "the variant fx of the ${} callback (float64 spliced by strconv2.FormatAny, or in plain digits after repair D-C17g; theorems hold "
-            "for both) is read off the running code by a probe case on every run",
+            "for both) is read off the running code by a probe case on every run; holder types are generated Go source; the factory's "
+            "sorted processor sequence is read from private fields of the delegate (cross-check only)",
     "technique": "Rocq proof (Sorter contract + StronglySorted for the order, case analysis for the pipeline) + instantiated "
                  "obligation on extracted Order facts + vm_compute correspondence",
 }
@@ -389,10 +398,12 @@ def mp_info(g, text, dependent=False):
     return {"n": len(used), "feats": feats, "dependent": dependent}
 
 
-def gen_expr_case(rng, cid, multipass=False):
+def gen_expr_case(rng, cid, multipass=False, tree=None, p_deep=0.12, p_validate=0.3):
     """one #{expr} as the whole value tag.  multipass: a case of the stream `multipass` - at least one placeholder inside the
-    expression needs more than one substitution pass; elsewhere about one placeholder in eight does"""
-    tree = {k: v for k, v in SCALARS.items() if rng.random() < 0.8}
+    expression needs more than one substitution pass; elsewhere about one placeholder in eight does.  tree: the configuration
+    the expression is written against (several fields of one component share it)"""
+    if tree is None:
+        tree = {k: v for k, v in SCALARS.items() if rng.random() < 0.8}
     dependent = False
     if multipass:
         dependent = rng.random() < 0.45
@@ -402,7 +413,7 @@ def gen_expr_case(rng, cid, multipass=False):
             if mp_info(g, render_pieces(pieces)):
                 break
     else:
-        g = G(rng, tree, p_deep=0.12)
+        g = G(rng, tree, p_deep=p_deep)
         pieces, u, kind = g.any_expr()
     tree = g.full_tree()
     ftype = {"num": rng.choice(["int", "float", "any", "string", "int", "float"]), "bool": rng.choice(["bool", "any", "string"]),
@@ -410,7 +421,7 @@ def gen_expr_case(rng, cid, multipass=False):
     text = "#{" + render_pieces(pieces) + "}"
     cons = ""
     hasv = False
-    if rng.random() < 0.3 and ftype != "any":
+    if rng.random() < p_validate and ftype != "any":
         cons = rng.choice({"int": NUM_CONS, "float": NUM_CONS, "string": STR_CONS, "bool": BOOL_CONS}[ftype])
         hasv = True
         text += ",validate=" + cons
@@ -436,10 +447,12 @@ def gen_mixed_case(rng, cid):
             "hasvalidate": False, "expr": None, "mp": mp_info(g, text)}
 
 
-def gen_validate_case(rng, cid):
-    ftype = rng.choice(["string", "string", "int", "int", "float", "bool", "strs", "ints", "pstring", "pint", "struct", "pstruct",
-                        "nest", "pnest", "map"])
-    hasv = rng.random() < 0.85
+def gen_validate_case(rng, cid, ns="", ftypes=None, p_validate=0.85, prefer_valid=False):
+    """ns: suffix of the configuration key the value comes from (several fields of one component use k1, k2, ...);
+    prefer_valid: struct values that satisfy the constraints of the field's type"""
+    ftype = rng.choice(ftypes or ["string", "string", "int", "int", "float", "bool", "strs", "ints", "pstring", "pint", "struct",
+                                  "pstruct", "nest", "pnest", "map"])
+    hasv = rng.random() < p_validate
     tree = {}
     via_prefix = rng.random() < 0.3
     cons = ""
@@ -470,12 +483,16 @@ def gen_validate_case(rng, cid):
     elif ftype in ("struct", "pstruct"):
         s = rng.choice(["abc", "abd", ""])
         n = rng.choice([0, 1, 5, 10, 11])
+        if prefer_valid:
+            s, n = "abc", rng.choice([1, 5, 10])
         lit, cfgv = "map[s:%s n:%d]" % (s, n), {"s": s, "n": n}
         if s == "":
             lit, cfgv = "map[n:%d]" % n, {"n": n}
     elif ftype in ("nest", "pnest"):
         name = rng.choice(["ab", "a", "xyz"])
         inner = rng.choice([None, {"e": "v"}, {"e": ""}])
+        if prefer_valid:
+            name, inner = rng.choice(["ab", "xyz"]), {"e": "v"}
         cfgv = {"name": name}
         lit = "map[name:%s" % name
         if inner is not None:
@@ -499,8 +516,8 @@ def gen_validate_case(rng, cid):
         if via_prefix:
             tagkey, tagtext = "prefix", "nope.k" + args
     elif via_prefix:
-        tree = {"k": {"v": cfgv}}
-        tagkey, tagtext = "prefix", "k.v" + args
+        tree = {"k" + ns: {"v": cfgv}}
+        tagkey, tagtext = "prefix", "k%s.v" % ns + args
     else:
         tagkey, tagtext = "value", lit + args
     scalar = {"string": "string", "int": "int", "float": "float", "bool": "bool"}.get(ftype)
@@ -654,8 +671,9 @@ VS_TOP_TAGS = {
 }
 
 
-def gen_vstruct_case(rng, cid):
+def gen_vstruct_case(rng, cid, ns=""):
     """one validated field whose type contains struct-valued targets, bound through prefix or through a ${} value"""
+    kk = "k" + ns
     labels = {}
     top = rng.choice(["struct", "struct", "struct", "ptr", "ptr", "slice", "slice", "map", "pslice"])
     depth = rng.choice([1, 1, 2]) if top in ("struct", "ptr") else rng.choice([0, 0, 1])
@@ -680,12 +698,12 @@ def gen_vstruct_case(rng, cid):
     unbound = rng.random() < 0.06
     via = "prefix" if rng.random() < 0.55 else "value"
     if unbound:                                        # the whole section is missing: the field keeps its zero value
-        tree = {"k": {"other": 1}}
-        tagkey, tagtext = ("prefix", "k.v" + args + ",required=false") if via == "prefix" else ("value", args + ",required=false")
+        tree = {kk: {"other": 1}}
+        tagkey, tagtext = ("prefix", kk + ".v" + args + ",required=false") if via == "prefix" else ("value", args + ",required=false")
         labels = {"top_%s:unbound" % top: 1}
     else:
-        tree = {"k": {"v": cfgv}}
-        tagkey, tagtext = ("prefix", "k.v" + args) if via == "prefix" else ("value", "${k.v}" + args)
+        tree = {kk: {"v": cfgv}}
+        tagkey, tagtext = ("prefix", kk + ".v" + args) if via == "prefix" else ("value", "${%s.v}" % kk + args)
     labels["bound_via_" + via] = 1
     labels["type_depth_%d" % vs_depth(shape)] = 1
     return {"id": cid, "stream": "vstruct", "config": P.cfg_json(tree), "tree": tree, "tagkey": tagkey, "tagtext": hx(tagtext),
@@ -714,6 +732,160 @@ def go_type(shape):
     if k == "map":
         return "map[string]" + go_type(shape["e"])
     return {"float": "float64"}.get(k, k)
+
+
+# ------------------------------------------------------------------------------------------------
+# components with SEVERAL tagged fields (stream `multi`) and components that are post processors themselves (stream `pholder`).
+# A field of such a component is one case of the single-field generators above (its own tag, type, constraints, expected expression
+# text); the fields share one configuration: the expression fields are written against one scalar tree, every other field takes
+# its value from its own key k1, k2, ...
+
+FIELD_KEYS = ("tagkey", "tagtext", "ftype", "constraints", "hasvalidate", "expr", "shape", "gotype", "scalar", "mp", "vs")
+STRUCT_FTYPES = ("struct", "pstruct", "nest", "pnest")
+
+
+def as_field(sub, name, kind):
+    f = {k: sub[k] for k in FIELD_KEYS if sub.get(k) is not None}
+    f.setdefault("expr", None)
+    f["name"], f["kind"] = name, kind
+    return f
+
+
+def fields_of(c):
+    """the tagged fields of a case: `fields`, or the single field F described at the top level"""
+    if c.get("fields"):
+        return c["fields"]
+    return [dict({k: c.get(k) for k in FIELD_KEYS}, name="F")]
+
+
+def gen_fields(rng, n, kinds, p_validate=0.9):
+    """n fields for one component: (fields, configuration tree)"""
+    shared = {k: v for k, v in SCALARS.items() if rng.random() < 0.8}
+    tree, fields, deep_used = dict(shared), [], False
+    for i in range(1, n + 1):
+        kind = rng.choice(kinds)
+        ns = str(i)
+        if kind == "expr":
+            # one field of the component may use multi-pass placeholders (their helper keys q1, sel1 ... are per generator)
+            deep = 0.0 if deep_used else rng.choice([0.0, 0.0, 0.2])
+            sub = gen_expr_case(rng, 0, tree=shared, p_deep=deep, p_validate=p_validate)
+            deep_used = deep_used or deep > 0
+        elif kind == "scalar":
+            sub = gen_validate_case(rng, 0, ns=ns, p_validate=p_validate,
+                                    ftypes=["string", "string", "int", "int", "float", "bool", "strs", "ints", "pstring", "pint", "map"])
+        elif kind == "struct":
+            sub = gen_validate_case(rng, 0, ns=ns, ftypes=list(STRUCT_FTYPES), p_validate=0.95, prefer_valid=rng.random() < 0.6)
+        else:
+            sub = gen_vstruct_case(rng, 0, ns=ns)
+        for k, v in sub["tree"].items():
+            if k not in shared:
+                tree[k] = v
+        fields.append(as_field(sub, "F%d" % i, kind))
+    return fields, tree
+
+
+def gen_multi_case(rng, cid):
+    """ONE component with 2-4 tagged fields, most of them validated: scalars bound from literals / prefix sections, #{} expressions
+    over ${} placeholders, fixed struct types (struct / *struct, nested), generated struct-valued targets - each independently
+    valid or violating, in every order"""
+    n = rng.choice([2, 2, 2, 3, 3, 4])
+    fields, tree = gen_fields(rng, n, ["scalar", "scalar", "expr", "expr", "struct", "struct", "struct", "vstruct"])
+    rng.shuffle(fields)
+    for i, f in enumerate(fields):
+        f["name"] = "F%d" % (i + 1)
+    return {"id": cid, "stream": "multi", "config": P.cfg_json(tree), "tree": tree, "fields": fields}
+
+
+# holders: the component that carries the validated field(s) is a plain component or ITSELF a container.ComponentPostProcessor -
+# unordered / Ordered / Priority-ordered, lazy or not (harness/cmd/c18: cores phPlain phU phO phP phUL phOL phPL), with a
+# name that sorts before or after the names of the built-in processors ("github.com/go-kid/ioc/container/processors/...")
+HOLDER_VARIANTS = ["U", "U", "U", "U", "O", "O", "O", "P", "P", "UL", "OL", "PL", "plain"]
+NAMES_BEFORE = ["auditProcessor", "Audit", "aaa", "0first", "github.com/acme/audit/processor", "github.com/go-kid/a", "a-checker"]
+NAMES_AFTER = ["zz-audit", "verifZ", "~last", "github.com/go-kid/ioc/z", "github.com/zz/p", "", "limits"]
+# Order() values between and around the Orders in use (priority 2 4 8 16 + observers 3 5 9 17; ordered 2 4 8 + observer 9)
+HOLDER_ORDERS = [-1000, -1, 0, 1, 6, 7, 10, 12, 15, 18, 20, 100, 2 ** 31 - 1]
+BUILTIN_PREFIX = "github.com/go-kid/ioc/container/processors/"
+
+
+def name_class(name):
+    if name == "":
+        return "type_id(sorts_after)"
+    return "sorts_before_builtin_processors" if name < BUILTIN_PREFIX else "sorts_after_builtin_processors"
+
+
+def gen_pholder_case(rng, cid):
+    """a validated field (sometimes two or three) on a component that is a post processor itself"""
+    variant = rng.choice(HOLDER_VARIANTS)
+    n = rng.choice([1, 1, 1, 1, 2, 3])
+    fields, tree = gen_fields(rng, n, ["scalar", "scalar", "scalar", "expr", "expr", "struct"], p_validate=0.95)
+    lazy = variant.endswith("L")
+    holder = {"key": "H%d" % cid, "variant": variant, "name": rng.choice(NAMES_BEFORE + NAMES_AFTER),
+              "ord": rng.choice(HOLDER_ORDERS) if variant[0] in "OP" else 0,
+              # a lazy component is created only when somebody asks for it: most lazy holders are wired into a plain component
+              "dep": lazy and rng.random() < 0.75}
+    return {"id": cid, "stream": "pholder", "config": P.cfg_json(tree), "tree": tree, "fields": fields, "holder": holder}
+
+
+GO_FTYPE = {"int": "int", "float": "float64", "bool": "bool", "any": "any", "strs": "[]string", "ints": "[]int", "pstring": "*string",
+            "pint": "*int", "map": "map[string]any", "struct": "VS", "pstruct": "*VS", "nest": "VNest", "pnest": "*VNest",
+            "string": "string"}
+
+
+def go_quote(b):
+    """a Go interpreted string literal for the bytes b"""
+    out = []
+    for ch in b:
+        if ch == 0x22:
+            out.append('\\"')
+        elif ch == 0x5c:
+            out.append("\\\\")
+        elif 0x20 <= ch < 0x7f:
+            out.append(chr(ch))
+        else:
+            out.append("\\x%02x" % ch)
+    return '"' + "".join(out) + '"'
+
+
+def holder_source(cases):
+    """Go source declaring one holder type per case with a `holder` and registering its constructor"""
+    out = ["// Code generated by tools/props/c18.py. DO NOT EDIT.", "package main", ""]
+    reg = []
+    for c in cases:
+        h = c.get("holder")
+        if not h:
+            continue
+        tname = "P" + h["key"]
+        out.append("type %s struct {" % tname)
+        out.append("\tph%s" % {"plain": "Plain"}.get(h["variant"], h["variant"]))
+        for f in fields_of(c):
+            gt = go_type(f["shape"]) if f["ftype"] == "dyn" else GO_FTYPE[f["ftype"]]
+            tag = f["tagkey"].encode() + b":" + go_quote(unhx(f["tagtext"])).encode()
+            out.append("\t%s %s %s" % (f["name"], gt, go_quote(tag)))
+        out.append("}")
+        dep = "nil"
+        if h.get("dep"):
+            out.append("type %sUser struct {\n\tH *%s `wire:\"\"`\n}" % (tname, tname))
+            dep = "&%sUser{}" % tname
+        out.append("")
+        reg.append("\tstaticHolders[%s] = func(name string, ord int) (any, any) {\n\t\th := &%s{}\n\t\th.phName, h.phOrd = name, ord\n"
+                   "\t\treturn h, %s\n\t}" % (go_quote(h["key"].encode()), tname, dep))
+    out.append("func init() {")
+    out += reg
+    out.append("}")
+    return "\n".join(out) + "\n"
+
+
+def build_driver(ctx, cases, tag):
+    """copy the driver next to the generated holder types (under the harness module, git-ignored) and build it"""
+    import os
+    import shutil
+    rel = os.path.join("work", "c18_%s_%s%s" % (ctx.tier, tag, getattr(ctx, "worktag", "")))
+    d = os.path.join(vlib.HARNESS, rel)
+    shutil.rmtree(d, ignore_errors=True)
+    os.makedirs(d)
+    shutil.copy(os.path.join(vlib.HARNESS, "cmd", "c18", "main.go"), os.path.join(d, "main.go"))
+    open(os.path.join(d, "gen_holders.go"), "w").write(holder_source(cases))
+    return vlib.go_build(ctx, "./" + rel, out=ctx.wpath("bin_c18_" + tag))
 
 
 def retuple(v):
@@ -830,8 +1002,50 @@ def usable(v):
 SPLICE_VARIANTS = {"1e+06": False, "1000000": True}
 
 
+SEND_KEYS = ("name", "tagkey", "tagtext", "ftype", "constraints", "hasvalidate", "shape")
+ID_HOLDER = 30
+
+
+def cls_key(cls, ord_):
+    """position of a class / Order() in the ordering contract: priority < ordered < unordered"""
+    return {"P": (0, ord_), "O": (1, ord_)}.get(cls, (2, 0))
+
+
+def holder_info(c, o, facts):
+    """what the holder of a case is (class / Order() / laziness read from the VALUE by the driver; the generator's description when
+    the run died) and where the ordering contract and the running code put it relative to the validate processor"""
+    h = c.get("holder")
+    if not h:
+        return None
+    hf = o.get("hfact")
+    if not hf:
+        v = h["variant"]
+        hf = {"cls": "U" if v == "plain" else v[0], "ord": h["ord"], "lazy": v.endswith("L"), "pp": v != "plain"}
+    info = {"cls": hf["cls"], "ord": hf["ord"], "lazy": hf["lazy"], "pp": hf["pp"], "dep": bool(h.get("dep")),
+            "eager_pp": hf["pp"] and not hf["lazy"], "created": not (hf["lazy"] and not h.get("dep"))}
+    vf = [f for f in facts if f["id"] == 4]
+    info["tie"] = info["eager_pp"] and hf["cls"] in "PO" and any(f["cls"] == hf["cls"] and f["ord"] == hf["ord"] for f in facts)
+    info["before_validate_by_contract"] = bool(info["eager_pp"] and vf and
+                                               cls_key(hf["cls"], hf["ord"]) < cls_key(vf[0]["cls"], vf[0]["ord"]))
+    seq = o.get("seq") if o.get("seqok") else None
+    info["seq_before_holder"] = None
+    if info["eager_pp"] and seq and ID_HOLDER in seq:
+        info["seq_before_holder"] = [i for i in seq[:seq.index(ID_HOLDER)] if i != 99]
+        info["before_validate_in_running_sequence"] = 4 in seq and 4 not in info["seq_before_holder"]
+    return info
+
+
 def evaluate(ctx, binp, cases, tag):
-    send = [{k: v for k, v in c.items() if k in ("id", "config", "tagkey", "tagtext", "ftype", "constraints", "hasvalidate", "shape")} for c in cases]
+    send = []
+    for c in cases:
+        d = {"id": c["id"], "config": c["config"]}
+        if c.get("fields"):
+            d["fields"] = [{k: f[k] for k in SEND_KEYS if f.get(k) is not None} for f in c["fields"]]
+        else:
+            d.update({k: c[k] for k in SEND_KEYS if c.get(k) is not None})
+        if c.get("holder"):
+            d["holder"] = {k: c["holder"][k] for k in ("key", "name", "ord")}
+        send.append(d)
     # facts probe: which variant of the ${} callback does the tree have?  value:"${k}" with k: 1000000.0, TagVal after the ${} stage:
     # "1e+06" = strconv2.FormatAny (unrepaired), "1000000" = repair D-C17g (Model/Strconv.v format_cfg, the model's parameter fx)
     probe_id = max([c["id"] for c in cases] + [0]) + 1
@@ -858,38 +1072,60 @@ def evaluate(ctx, binp, cases, tag):
         o = outs.get(c["id"]) or {"id": c["id"], "outcome": "crash", "evals": []}
         desc = {"case": dict(c), "observed": o}
         by_id[c["id"]] = desc
-        if o["outcome"] == "setup" or (o["outcome"] in ("ok", "err") and not o.get("preseen")):
+        flds = fields_of(c)
+        fobs = o.get("flds") if c.get("fields") else [o]
+        if not fobs or len(fobs) != len(flds):                 # the run died: nothing was observed of any field
+            fobs = [{"evals": []} for _ in flds]
+        hinfo = holder_info(c, o, facts)
+        if hinfo:
+            desc["holder"] = hinfo
+        if not hinfo and (o["outcome"] == "setup" or (o["outcome"] in ("ok", "err") and not all(x.get("preseen") for x in fobs))):
             harness.append(c["id"])
             desc["harness"] = "the observer before the ${} processor never saw the field"
             continue
-        if any(e["outcome"] == "ok" and not usable(e.get("val")) for e in o.get("evals") or []):
+        if any(e["outcome"] == "ok" and not usable(e.get("val")) for x in fobs for e in x.get("evals") or []):
             desc["outside_fragment"] = "an expression result is Inf / NaN / -0 or of a kind outside cval"
             outside.append(c["id"])
             continue
+        if hinfo and hinfo["tie"]:
+            desc["outside_fragment"] = "the holder's class and Order() equal those of another processor: the sort keeps no order among them"
+            outside.append(c["id"])
+            continue
         tbl = P.flatten(c["tree"])
-        evals = []
-        for e in o.get("evals") or []:
-            if e["outcome"] == "ok" and usable(e.get("val")):
-                evals.append("(%s, Ok %s)" % (P.coq_b(unhx(e["k"])), P.coq_val(P.obs_val(e["val"]))))
-            elif e["outcome"] == "ok":
-                evals.append("(%s, Panic)" % P.coq_b(unhx(e["k"])))       # value kinds outside cval: never equal to an observation
+        fterms = []
+        for f, x in zip(flds, fobs):
+            evals = []
+            for e in x.get("evals") or []:
+                if e["outcome"] == "ok" and usable(e.get("val")):
+                    evals.append("(%s, Ok %s)" % (P.coq_b(unhx(e["k"])), P.coq_val(P.obs_val(e["val"]))))
+                elif e["outcome"] == "ok":
+                    evals.append("(%s, Panic)" % P.coq_b(unhx(e["k"])))       # value kinds outside cval: never equal to an observation
+                else:
+                    evals.append("(%s, Err)" % P.coq_b(unhx(e["k"])))
+            ft = FT.get(f["ftype"], 9)
+            fv = "None"
+            if x.get("field") is not None and ft != 9 and usable(x["field"]):
+                fv = "(Some %s)" % P.coq_val(P.obs_val(x["field"]))
+            if o["outcome"] in ("hang", "crash") or "tagstr" not in x:
+                tagstr = unhx(f["tagtext"]).split(b",")[0]
             else:
-                evals.append("(%s, Err)" % P.coq_b(unhx(e["k"])))
-        ft = FT.get(c["ftype"], 9)
-        fobs = "None"
-        if o.get("field") is not None and ft != 9 and usable(o["field"]):
-            fobs = "(Some %s)" % P.coq_val(P.obs_val(o["field"]))
-        if o["outcome"] in ("hang", "crash"):
-            tagstr = unhx(c["tagtext"]).split(b",")[0]
-        else:
-            tagstr = unhx(o.get("tagstr", ""))
-        expr_u = "(Some %s)" % P.coq_b(c["expr"]) if c.get("expr") is not None else "None"
-        terms.append("mkCase %d %d %s %s %s %s [%s] %d %s facts %s %s %s %s %s %d fixv" % (
-            c["id"], 0 if c["tagkey"] == "value" else 1, P.coq_b(tagstr),
-            "true" if o.get("required", True) else "false", "true" if c["hasvalidate"] else "false",
-            P.coq_cfg(tbl), "; ".join(evals), ft, "true" if o.get("verdict", True) else "false",
-            expr_u, coq_opt_bytes(o.get("qseen"), o.get("q", "")), coq_opt_bytes(o.get("eseen"), o.get("e", "")),
-            "true" if o.get("bound") else "false", fobs, ERR.get(o["outcome"], 1)))
+                tagstr = unhx(x.get("tagstr", ""))
+            expr_u = "(Some %s)" % P.coq_b(f["expr"]) if f.get("expr") is not None else "None"
+            fterms.append("mkFld %d %s %s %s [%s] %d %s %s %s %s %s %s" % (
+                0 if f["tagkey"] == "value" else 1, P.coq_b(tagstr),
+                "true" if x.get("required", True) else "false", "true" if f["hasvalidate"] else "false",
+                "; ".join(evals), ft, "true" if x.get("verdict", True) else "false",
+                expr_u, coq_opt_bytes(x.get("qseen"), x.get("q", "")), coq_opt_bytes(x.get("eseen"), x.get("e", "")),
+                "true" if x.get("bound") else "false", fv))
+        cfacts, created, cseq = "facts", "true", "None"
+        if hinfo:
+            created = "true" if hinfo["created"] else "false"
+            if hinfo["eager_pp"]:                             # the holder is a participant of the sorted sequence: created in its turn
+                cfacts = "(facts ++ [%s])" % coq_part({"id": ID_HOLDER, "cls": hinfo["cls"], "ord": hinfo["ord"]})
+                if hinfo["seq_before_holder"] is not None:
+                    cseq = "(Some [%s])" % "; ".join("%d" % i for i in hinfo["seq_before_holder"])
+        terms.append("mkCase %d %s %s fixv %s %s [%s] %d" % (c["id"], P.coq_cfg(tbl), cfacts, created, cseq, "; ".join(fterms),
+                                                         ERR.get(o["outcome"], 1)))
     import random
     random.Random(len(terms)).shuffle(terms)
     out = vlib.coq_eval_sharded(ctx, "cases_c18_" + tag, header, terms,
@@ -899,7 +1135,7 @@ def evaluate(ctx, binp, cases, tag):
         by_id[out["KC"][i]]["kf_class"] = out["KC"][i + 1]
     M = sorted(set(out["M"]) | set(harness))
     json.dump({"by_id": by_id, "M": M, "V": out["V"]}, open(ctx.wpath("dump_%s.json" % tag), "w"))
-    return by_id, M, out["V"], {"nt": sum(out["NT"]), "vf": sum(out["VF"]), "evals": len(terms), "outside": len(outside)}, res
+    return by_id, M, out["V"], {"nt": sum(out["NT"]), "vf": sum(out["VF"]), "evals": len(terms), "outside": len(outside)}, res, facts
 
 
 def facts_obligation(ctx, res):
@@ -928,18 +1164,150 @@ def facts_obligation(ctx, res):
     return ok
 
 
+def multi_distribution(cases, by_id):
+    """the class `one component, several validated properties`: volumes per shape of the component and per verdict pattern"""
+    st = {"cases": 0, "cases_by_field_count": {}, "fields_by_kind": {}, "fields_by_type": {}, "fields_validated": 0,
+          "cases_all_fields_bound": 0, "cases_no_property_violates": 0, "cases_some_property_violates": 0,
+          "cases_by_number_of_violating_properties": {}, "cases_violating_property_is_first": 0, "cases_violating_property_is_last": 0,
+          "cases_valid_struct_before_violating_property": 0, "of_these_same_tag_key": 0, "of_these_startup_failed": 0,
+          "of_these_violating_is_scalar": 0, "of_these_violating_is_expression": 0, "of_these_violating_is_struct": 0,
+          "cases_by_outcome": {}}
+    keys = set()
+    for c in cases:
+        if not c.get("fields") or c.get("holder") or len(c["fields"]) < 2:
+            continue
+        o = by_id.get(c["id"], {}).get("observed", {})
+        fobs = o.get("flds") or []
+        st["cases"] += 1
+        keys.add(vlib.stable_hash([c["config"], [[f["tagkey"], f["tagtext"], f["ftype"]] for f in c["fields"]]]))
+        n = len(c["fields"])
+        st["cases_by_field_count"][n] = st["cases_by_field_count"].get(n, 0) + 1
+        for f in c["fields"]:
+            for key, val in (("fields_by_kind", f.get("kind", "?")), ("fields_by_type", f["ftype"])):
+                st[key][val] = st[key].get(val, 0) + 1
+            st["fields_validated"] += 1 if f["hasvalidate"] else 0
+        st["cases_by_outcome"][o.get("outcome")] = st["cases_by_outcome"].get(o.get("outcome"), 0) + 1
+        if len(fobs) != n or not all(x.get("bound") for x in fobs):
+            continue
+        st["cases_all_fields_bound"] += 1
+        viol = [f["hasvalidate"] and not x.get("verdict", True) for f, x in zip(c["fields"], fobs)]
+        nv = sum(viol)
+        st["cases_by_number_of_violating_properties"][nv] = st["cases_by_number_of_violating_properties"].get(nv, 0) + 1
+        st["cases_some_property_violates" if nv else "cases_no_property_violates"] += 1
+        if nv:
+            st["cases_violating_property_is_first"] += 1 if viol[0] else 0
+            st["cases_violating_property_is_last"] += 1 if viol[-1] else 0
+        is_struct = [f["ftype"] in STRUCT_FTYPES or (f["ftype"] == "dyn" and f["shape"]["k"] in ("struct", "ptr")) for f in c["fields"]]
+        first = next((i for i, v in enumerate(viol) if v), None)
+        if first is not None:
+            ahead = [i for i in range(first) if is_struct[i] and c["fields"][i]["hasvalidate"] and not viol[i]]
+            if ahead:
+                st["cases_valid_struct_before_violating_property"] += 1
+                st["of_these_same_tag_key"] += 1 if any(c["fields"][i]["tagkey"] == c["fields"][first]["tagkey"] for i in ahead) else 0
+                st["of_these_startup_failed"] += 1 if o.get("outcome") == "err" else 0
+                k = "struct" if is_struct[first] else "expression" if c["fields"][first].get("expr") is not None else "scalar"
+                st["of_these_violating_is_" + k] += 1
+    st["distinct_cases"] = len(keys)
+    return st
+
+
+def holder_distribution(cases, by_id, V, classify_known):
+    """the class `the validated field sits on a component that is a post processor`: volumes per kind of holder, name, position of
+    the holder relative to the validate processor, and what start-up did when the bound value violates the constraints"""
+    st = {"cases": 0, "cases_by_holder_kind": {}, "cases_by_name": {}, "cases_by_field_count": {},
+          "eager_processor_holders_by_position": {}, "eager_unordered_by_name": {}, "lazy_holders": {"wired_into_a_component": 0, "alone_never_created": 0},
+          "cases_probe_of_running_sequence_available": 0, "cases_outside_fragment_order_tie": 0,
+          "cases_bound_value_violates": 0, "violating_startup_failed": 0, "violating_started_in_class_KF-C05a": 0,
+          "violating_started_outside_the_class": 0, "violating_by_holder_kind": {}, "cases_by_outcome": {}}
+    kinds = {"U": "unordered", "O": "ordered", "P": "priority_ordered", "UL": "unordered_lazy", "OL": "ordered_lazy",
+             "PL": "priority_ordered_lazy", "plain": "plain_component"}
+    keys = set()
+    vset = set(V)
+    for c in cases:
+        h = c.get("holder")
+        if not h:
+            continue
+        d = by_id.get(c["id"], {})
+        o, info = d.get("observed", {}), d.get("holder") or {}
+        st["cases"] += 1
+        keys.add(vlib.stable_hash([c["config"], [h[k] for k in ("variant", "name", "ord", "dep")],
+                                   [[f["tagkey"], f["tagtext"], f["ftype"]] for f in c["fields"]]]))
+        kind = kinds[h["variant"]]
+        for key, val in (("cases_by_holder_kind", kind), ("cases_by_name", name_class(h["name"])),
+                         ("cases_by_field_count", len(c["fields"])), ("cases_by_outcome", o.get("outcome"))):
+            st[key][val] = st[key].get(val, 0) + 1
+        if info.get("tie"):
+            st["cases_outside_fragment_order_tie"] += 1
+        if info.get("lazy"):
+            st["lazy_holders"]["wired_into_a_component" if info.get("dep") else "alone_never_created"] += 1
+        if info.get("eager_pp"):
+            pos = ("before_the_validate_processor(" + kind + ")" if info.get("before_validate_by_contract") else
+                   "after_the_validate_processor(" + kind + ")")
+            st["eager_processor_holders_by_position"][pos] = st["eager_processor_holders_by_position"].get(pos, 0) + 1
+            if info.get("seq_before_holder") is not None:
+                st["cases_probe_of_running_sequence_available"] += 1
+            if h["variant"] == "U":
+                nc = name_class(h["name"])
+                st["eager_unordered_by_name"][nc] = st["eager_unordered_by_name"].get(nc, 0) + 1
+        fobs = o.get("flds") or []
+        violates = any(f["hasvalidate"] and x.get("bound") and not x.get("verdict", True) for f, x in zip(c["fields"], fobs))
+        if violates and len(fobs) == len(c["fields"]) and all(x.get("bound") for x in fobs):
+            st["cases_bound_value_violates"] += 1
+            st["violating_by_holder_kind"][kind] = st["violating_by_holder_kind"].get(kind, 0) + 1
+            if o.get("outcome") == "err":
+                st["violating_startup_failed"] += 1
+            elif c["id"] in vset and classify_known(d) == "KF-C05a":
+                st["violating_started_in_class_KF-C05a"] += 1
+            else:
+                st["violating_started_outside_the_class"] += 1
+    st["distinct_cases"] = len(keys)
+    return st
+
+
+def corpus_structured():
+    """fixed witnesses of the two classes `several validated properties on one component` and `the component is a post processor`"""
+    cs = []
+
+    def fld(name, tagkey, text, ftype, cons="", hasv=True, expr=None, kind="scalar"):
+        return {"name": name, "tagkey": tagkey, "tagtext": hx(text), "ftype": ftype, "constraints": cons, "hasvalidate": hasv,
+                "expr": expr, "kind": kind}
+
+    pool_ok, pool_bad = {"s": "abc", "n": 4}, {"s": "abd", "n": 4}
+    base = {"pool": pool_ok, "spare": pool_bad, "port": {"base": 70000, "offset": 80}, "proto": "ftp", "audit": {"base": 3}}
+    port = lambda n: fld(n, "value", "#{${port.base}+${port.offset}},validate=gte=1024 lte=65535", "int", "gte=1024 lte=65535",
+                         expr="70000+80", kind="expr")
+    proto = lambda n: fld(n, "value", "${proto},validate=eq=http|eq=https", "string", "eq=http|eq=https")
+    pool = lambda n, key="pool", ft="pstruct": fld(n, "value", "${%s},validate" % key, ft, kind="struct")
+    # a VALID validated struct / *struct in front of a violating scalar, behind it, between two; a valid struct before an invalid one
+    for fields in ([pool("F1"), port("F2")], [port("F1"), pool("F2")], [pool("F1", ft="struct"), proto("F2")],
+                   [pool("F1"), pool("F2", "spare")], [pool("F1", "spare"), pool("F2")],
+                   [pool("F1"), fld("F2", "prefix", "pool,validate", "struct", kind="struct"), proto("F3")],
+                   [pool("F1"), fld("F2", "value", "${audit.base},validate=gte=1", "int", "gte=1")]):
+        cs.append({"stream": "corpus", "config": P.cfg_json(base), "tree": base, "fields": fields})
+    # the validated field sits on a component that is a post processor itself: unordered with a name before / after the built-in
+    # processors' names (created after every ordered processor: validated), Ordered behind OrderValidate (validated), Ordered in
+    # front of it and Priority-ordered (created before the validate processor is active: KF-C05a), lazy and wired (validated)
+    thr = lambda: [fld("F1", "value", "#{${audit.base}*2},validate=gte=10", "int", "gte=10", expr="3*2", kind="expr")]
+    for variant, name, ord_, dep in (("U", "auditProcessor", 0, False), ("U", "zz-audit", 0, False), ("U", "github.com/acme/audit", 0, False),
+                                     ("O", "auditProcessor", 100, False), ("O", "auditProcessor", 6, False), ("P", "zz-audit", 100, False),
+                                     ("UL", "Audit", 0, True), ("PL", "Audit", 1, True), ("plain", "auditProcessor", 0, False)):
+        cs.append({"stream": "corpus", "config": P.cfg_json(base), "tree": base, "fields": thr(),
+                   "holder": {"variant": variant, "name": name, "ord": ord_, "dep": dep}})
+    return cs
+
+
 def run(ctx):
     static_ok = vlib.static_obligations(ctx)
-    binp = vlib.go_build(ctx, "./cmd/c18")
     rng = ctx.rng
-    cases = [dict(c, id=i + 1) for i, c in enumerate(corpus())]
+    cases = [dict(c, id=i + 1) for i, c in enumerate(corpus() + corpus_structured())]
     if ctx.replay:
         r = json.load(open(ctx.replay))
         rc = r.get("case", {}).get("case")
         if rc:
             cases = [dict(rc, id=1, tree=retuple(rc.get("tree")))]
     else:
-        n_expr, n_mp, n_mixed, n_val, n_vs = (900, 600, 200, 800, 700) if ctx.quick() else (8000, 5000, 2000, 6000, 6000)
+        n_expr, n_mp, n_mixed, n_val, n_vs, n_multi, n_ph = ((900, 600, 200, 800, 700, 600, 500) if ctx.quick() else
+                                                            (8000, 5000, 2000, 6000, 6000, 5000, 1500))
         cid = len(cases) + 1
         for _ in range(n_expr):
             cases.append(gen_expr_case(rng, cid)); cid += 1
@@ -951,7 +1319,15 @@ def run(ctx):
             cases.append(gen_validate_case(rng, cid)); cid += 1
         for _ in range(n_vs):
             cases.append(gen_vstruct_case(rng, cid)); cid += 1
-    by_id, M, V, cnt, res = evaluate(ctx, binp, cases, "main")
+        for _ in range(n_multi):
+            cases.append(gen_multi_case(rng, cid)); cid += 1
+        for _ in range(n_ph):
+            cases.append(gen_pholder_case(rng, cid)); cid += 1
+    for c in cases:
+        if c.get("holder"):
+            c["holder"]["key"] = "H%d" % c["id"]
+    binp = build_driver(ctx, cases, "main")
+    by_id, M, V, cnt, res, facts = evaluate(ctx, binp, cases, "main")
     facts_ok = facts_obligation(ctx, res)
     ctx.oblige("facts: the tree's ${} callback is one of the two modelled variants (a float64 spliced as strconv2.FormatAny writes it = "
                "unrepaired, or in plain digits = repair D-C17g)", True,
@@ -961,16 +1337,27 @@ def run(ctx):
 
     def size_of(i):
         d = by_id.get(i, {}).get("case", {})
-        return len(d.get("tagtext", "")) + len(d.get("config", ""))
+        return sum(len(f.get("tagtext") or "") for f in fields_of(d)) + len(d.get("config", "")) + (200 if d.get("holder") else 0)
 
     V.sort(key=size_of)
     M.sort(key=size_of)
+    def classify(desc, mism):
+        c = desc.get("case", {})
+        if c.get("id") in mism or desc.get("observed", {}).get("outcome") in ("hang", "crash", "panic"):
+            return None
+        h = desc.get("holder")
+        if h:
+            # KF-C05a: an eager post-processor component is populated by the processors that are active when it is created.  The
+            # class is narrow: the holder's OWN Priority / Order() puts it in front of the validate processor (an unordered holder
+            # comes after every ordered processor and is never in the class), the running code's sorted sequence shows it there, and
+            # the model of exactly that behaviour reproduces the whole observation (the case is not a mismatch)
+            if (h["eager_pp"] and h["cls"] in ("P", "O") and h["before_validate_by_contract"]
+                    and h.get("before_validate_in_running_sequence")):
+                return "KF-C05a"
+        return {1: "KF-C18a", 2: "KF-C18b"}.get(desc.get("kf_class"))
 
     def classify_known(desc):
-        c = desc.get("case", {})
-        if c.get("id") in M or desc.get("observed", {}).get("outcome") in ("hang", "crash", "panic"):
-            return None
-        return {1: "KF-C18a", 2: "KF-C18b"}.get(desc.get("kf_class"))
+        return classify(desc, M)
 
     def widen():
         import random
@@ -986,10 +1373,15 @@ def run(ctx):
                 more.append(gen_expr_case(r2, i, multipass=True))
             for i in range(1201, 1601):
                 more.append(gen_vstruct_case(r2, i))
-            b2, M2, V2, _, _ = evaluate(ctx, binp, more, "widen%d" % extra)
+            for i in range(1601, 2001):
+                more.append(gen_multi_case(r2, i))
+            for i in range(2001, 2301):
+                more.append(gen_pholder_case(r2, i))
+            b2, M2, V2, _, _, _ = evaluate(ctx, build_driver(ctx, more, "widen%d" % extra), more, "widen%d" % extra)
             for i in V2:
-                if not (b2[i].get("kf_class") and i not in M2):
-                    found.append(b2[i])
+                d = b2[i]
+                if not classify(d, M2):
+                    found.append(d)
             if found:
                 break
         return found[:3]
@@ -999,7 +1391,10 @@ def run(ctx):
     mp = {"cases": 0, "cases_by_stream": {}, "placeholders": 0, "cases_with_several": 0, "cases_result_depends_on_inner_value": 0,
           "cases_by_feature": {}, "cases_by_outcome": {}, "cases_by_field_type": {}}
     for c in cases:
-        k = c.get("stream", "") + ":" + c["tagkey"] + ":" + c["ftype"]
+        if c.get("fields"):
+            k = c.get("stream", "") + (":holder" if c.get("holder") else "") + ":%d_fields" % len(c["fields"])
+        else:
+            k = c.get("stream", "") + ":" + c["tagkey"] + ":" + c["ftype"]
         streams[k] = streams.get(k, 0) + 1
         m = c.get("mp")
         if m:
@@ -1010,7 +1405,7 @@ def run(ctx):
             for f in m["feats"]:
                 mp["cases_by_feature"][f] = mp["cases_by_feature"].get(f, 0) + 1
             oc = by_id.get(c["id"], {}).get("observed", {}).get("outcome")
-            for key, val in (("cases_by_stream", c.get("stream", "")), ("cases_by_outcome", oc), ("cases_by_field_type", c["ftype"])):
+            for key, val in (("cases_by_stream", c.get("stream", "")), ("cases_by_outcome", oc), ("cases_by_field_type", c.get("ftype"))):
                 mp[key][val] = mp[key].get(val, 0) + 1
     mp["distinct_cases"] = len({vlib.stable_hash([c["config"], c["tagtext"], c["ftype"]]) for c in cases if c.get("mp")})
     ctx.log("multi-pass placeholder class: %d cases (%d distinct, %d placeholders, %d with several, %d result-dependent) %s" % (
@@ -1052,16 +1447,36 @@ def run(ctx):
             "verdict decided by `required` on a struct value in %d) %s" % (
                 vs["cases"], vs["distinct_cases"], vs["cases_with_validate_bound"], vs["startup_failed_in_validation"], vs["startup_ok"],
                 vs["verdict_decided_by_required_on_struct_value"], json.dumps(by_state, sort_keys=True)))
+    multi_stats = multi_distribution(cases, by_id)
+    holder_stats = holder_distribution(cases, by_id, V, classify_known)
+    ctx.log("components with several tagged fields: %d cases (%d distinct); a VALID validated struct in front of a violating property: %d "
+            "(start-up failed in %d of them); some property violates: %d, none: %d" % (
+                multi_stats["cases"], multi_stats["distinct_cases"], multi_stats["cases_valid_struct_before_violating_property"],
+                multi_stats["of_these_startup_failed"], multi_stats["cases_some_property_violates"],
+                multi_stats["cases_no_property_violates"]))
+    ctx.log("validated fields on post-processor components: %d cases (%d distinct) by kind %s; bound value violates: %d, of these start-up "
+            "failed %d, started in known-finding class KF-C05a %d, started otherwise %d" % (
+                holder_stats["cases"], holder_stats["distinct_cases"], json.dumps(holder_stats["cases_by_holder_kind"], sort_keys=True),
+                holder_stats["cases_bound_value_violates"], holder_stats["violating_startup_failed"],
+                holder_stats["violating_started_in_class_KF-C05a"], holder_stats["violating_started_outside_the_class"]))
     for d in by_id.values():
         oc = d["observed"].get("outcome")
         outcomes[oc] = outcomes.get(oc, 0) + 1
-    distinct = len({vlib.stable_hash([c["config"], c["tagkey"], c["tagtext"], c["ftype"]]) for c in cases
-                    if (c.get("expr") is not None and "${" in unhx(c["tagtext"]).decode("latin1"))
-                    or c.get("stream") in ("validate", "vstruct")})
+
+    def counts_as_distinct(c):
+        if c.get("stream") in ("validate", "vstruct", "multi", "pholder"):
+            return True
+        return any(f.get("expr") is not None and "${" in unhx(f["tagtext"]).decode("latin1") for f in fields_of(c))
+
+    distinct = len({vlib.stable_hash([c["config"], c.get("holder") and [c["holder"][k] for k in ("variant", "name", "ord", "dep")],
+                                      [[f["tagkey"], f["tagtext"], f["ftype"]] for f in fields_of(c)]])
+                    for c in cases if counts_as_distinct(c)})
     samples = [by_id[i] for i in sorted(by_id) if by_id[i]["case"].get("stream") == "expr"][:2]
     samples += [by_id[i] for i in sorted(by_id) if by_id[i]["case"].get("stream") == "multipass"][:3]
     samples += [by_id[i] for i in sorted(by_id) if by_id[i]["case"].get("stream") == "validate"][:2]
     samples += [by_id[i] for i in sorted(by_id) if by_id[i]["case"].get("stream") == "vstruct"][:3]
+    samples += [by_id[i] for i in sorted(by_id) if by_id[i]["case"].get("stream") == "multi"][:2]
+    samples += [by_id[i] for i in sorted(by_id) if by_id[i]["case"].get("stream") == "pholder"][:3]
     cov = {
         "evaluations": cnt["evals"],
         "distinct_nontrivial": min(cnt["nt"], distinct),
@@ -1076,12 +1491,21 @@ def run(ctx):
                 "shapes): nested non-pointer structs, pointers to structs, slices / maps of structs and of pointers to structs, tagged "
                 "required / dive,required / required,dive,required / min=1,dive,required / omitempty / not at all, one and two levels "
                 "deep next to constrained scalars, as the field itself or inside a validated struct, with the section present, missing, "
-                "all-zero, empty or holding a zero element, bound through prefix and through a ${} value. non-trivial = (a) with at least one placeholder inside the expression, or a case with a validate "
+                "all-zero, empty or holding a zero element, bound through prefix and through a ${} value; (e) ONE component with 2-4 "
+                "tagged fields of the kinds (a) (c) (d) - scalars, expressions, struct / *struct, struct-valued targets - each independently "
+                "valid or violating, in every order (stream multi): start-up fails in validation iff at least one bound value violates; "
+                "(f) the validated field(s) on a generated component type that is itself a container.ComponentPostProcessor - unordered / "
+                "Ordered / Priority-ordered with Orders around those of the built-in processors, lazy (alone or wired into a plain component) "
+                "or not, named before / after the built-in processors' names (stream pholder): the model applies the processors that the "
+                "sorted sequence (class / Order() read from the holder value; cross-checked against the factory's sequence read from the "
+                "running code) places before the holder, the oracle is the property. non-trivial = (a) with at least one placeholder inside the expression, or a case with a validate "
                 "argument whose binding stage was reached; distinct = distinct (configuration, tag, field type)",
         "samples": samples,
         "traces_validated_against_impl": len(cases),
         "input_distribution": {"streams": streams, "outcomes": outcomes, "multipass_placeholders": mp,
-                               "struct_valued_validation_targets": vs},
+                               "struct_valued_validation_targets": vs,
+                               "components_with_several_validated_properties": multi_stats,
+                               "validated_fields_on_postprocessor_components": holder_stats},
         "nontrivial_cases": cnt["nt"],
         "validate_failures_observed": cnt["vf"],
         "cases_outside_modelled_fragment": cnt["outside"],
@@ -1094,4 +1518,6 @@ def run(ctx):
                                     "with WithRequiredStructEnabled (`required` on a struct value = not the zero struct), independently of "
                                     "the instance inside container/processors",
                                     "user processors do not modify TagVal or the field of a configuration property",
+                                    "holders whose class and Order() equal those of another registered processor are not generated (the sort "
+                                    "keeps no order among equals); a case where it happens anyway is counted as outside the fragment",
                                     "mapstructure decoding is modelled for scalar field types only (harness comparison, not theorems)"])
